@@ -109,3 +109,84 @@ def budgeted(mon, fn, *args, **kw):
         return 'raised', e
     finally:
         mon.end_call()
+
+
+class PreemptEverywhere(object):
+    """Systematic (not random) pre-emption of one call by another: `fn_a` runs
+    in a thread of its own and is stopped at its k-th statement inside the
+    chosen files, for k = 1, 2, ... until the call has fewer statements than
+    k; while it stands there `fn_b` runs to its end in the calling thread;
+    then `fn_a` goes on.  `judge(k, result_a, result_b)` is called for every k
+    (results are ('ok', value) or ('raised', exc)); it returns a witness to
+    stop, or None.  `fresh(k)` may rebuild per-k state first.
+
+    One enumeration covers every position at which a thread switch between two
+    statements of fn_a can let fn_b in - the schedules random yield injection
+    finds only with luck - at the price of considering a single switch."""
+    TOOL = 4
+
+    def __init__(self, files, max_k=400):
+        self.files = {os.path.join(core.REPO, f) for f in files}
+        self.max_k = max_k
+        self.points = 0
+
+    def run(self, fn_a, fn_b, judge, fresh=None):
+        state = {'a': None, 'n': 0, 'stop_at': 0, 'stopped': None,
+                 'go': None}
+
+        def on_line(code, lineno):
+            if code.co_filename not in self.files:
+                return _mon.DISABLE
+            if threading.get_ident() == state['a']:
+                state['n'] += 1
+                if state['n'] == state['stop_at']:
+                    state['stopped'].set()
+                    state['go'].wait(10.0)
+            return None
+        _mon.use_tool_id(self.TOOL, 'vf-preempt-everywhere')
+        _mon.register_callback(self.TOOL, _mon.events.LINE, on_line)
+        _mon.set_events(self.TOOL, _mon.events.LINE)
+        _mon.restart_events()
+        try:
+            for k in range(1, self.max_k + 1):
+                if fresh is not None:
+                    fresh(k)
+                state.update(n=0, stop_at=k, stopped=threading.Event(),
+                             go=threading.Event())
+                res_a = []
+
+                def thread_a():
+                    state['a'] = threading.get_ident()
+                    try:
+                        res_a.append(('ok', fn_a()))
+                    except Exception as e:
+                        res_a.append(('raised', e))
+                    state['a'] = None
+                ta = threading.Thread(target=thread_a, name='preempted-A')
+                ta.start()
+                reached = False
+                for _ in range(4000):
+                    reached = state['stopped'].wait(0.005)
+                    if reached or not ta.is_alive():
+                        break
+                reached = reached or state['stopped'].is_set()
+                res_b = None
+                if reached:
+                    try:
+                        res_b = ('ok', fn_b())
+                    except Exception as e:
+                        res_b = ('raised', e)
+                    self.points += 1
+                state['go'].set()
+                ta.join(20.0)
+                if not reached:
+                    return None          # fn_a has fewer than k statements
+                witness = judge(k, res_a[0] if res_a else ('hung', None),
+                                res_b)
+                if witness is not None:
+                    return witness
+            return None
+        finally:
+            _mon.set_events(self.TOOL, 0)
+            _mon.register_callback(self.TOOL, _mon.events.LINE, None)
+            _mon.free_tool_id(self.TOOL)
